@@ -92,18 +92,29 @@
                            [the IOCB is finished]; never twice, never early
     finished_is_final / abort_after_done_noop   a finished IOCB keeps state,
                            response, error for ever; no second callback
-    queue_released         a confirmation (ack / error class) for the active IOCB
-                           of its source address releases that queue and defers
-                           its trigger; with nothing waiting the queue is
-                           forgotten (queue_empty_forgotten)
+    queue_never_stuck      the global invariant, over ANY operation sequence
+                           INCLUDING operations issued from inside completion
+                           callbacks (re-entrant request_io to the same / another
+                           destination, aborts of other IOCBs): an idle queue
+                           with IOCBs waiting always has its trigger pending;
+                           serials of queue objects pairwise different
+    queue_released         an ack-class confirmation for the active IOCB of its
+                           source address, whatever the callback does
+                           re-entrantly: trigger deferred, queue idle; the
+                           address keeps the queue only if IOCBs wait in it,
+                           otherwise it is forgotten (queue_empty_forgotten)
     queue_advances         the deferred trigger on an idle queue makes the head
                            of the waiting list active and sends it — only that
-  Partial (IOCB): the two queue theorems are per step with local hypotheses
-  (serial of the queue object unique, head of the list PENDING); the global
-  invariant "an idle queue with waiting IOCBs always has a trigger pending" is
-  evaluated by the lockstep oracle (`queue-stuck`), not proved.  Known and NOT
-  claimed (DESIGN §7 C11 "Noted"): `_app_complete` matches by address only —
-  last example of the file.
+  Re-entrancy is modelled as the code does it: `IOCB.trigger()` runs the callback
+  in the middle of complete_io / abort_io (final state set, IOCB off its queue,
+  controller NOT yet released); every operation of the model is a function of
+  "what a callback does" (`Cb`), all lemmas are proved for any callback
+  behaviour that itself keeps the respective invariant (`CbKeeps`, `CbGood`).
+  Known and NOT claimed (DESIGN §7 C11 "Noted"): `_app_complete` matches by
+  address only — last example of the file.  Not claimed either: a callback that
+  aborts the very IOCB it is called back for and then submits to the same
+  destination (the outer complete_io clears the new active IOCB) — the rig's
+  application never does (notes/C04.md).
 -/
 import BacVerif.Lemmas.TsmC04Silent
 import BacVerif.Lemmas.TsmC04Pass
@@ -983,28 +994,49 @@ theorem finished_is_final (s : St) (es : List Ev) (id : Nat) {io : Iocb} (h : s.
 /-- the application aborting a finished IOCB: no callback, nothing changes on the IOCB -/
 theorem abort_after_done_noop (s : St) (id tok : Nat) {io : Iocb} (h : s.iocbs[id]? = some io)
     (ht : io.st.terminal = true) :
-    nCb id (appAbort s id tok).2 = 0 ∧
-    ∃ io', (appAbort s id tok).1.iocbs[id]? = some io' ∧ io'.st = io.st ∧ io'.resp = io.resp ∧ io'.err = io.err := by
-  have hk := appAbort_keeps s id tok id
+    nCb id (appAbort cb1 s id tok).2 = 0 ∧
+    ∃ io', (appAbort cb1 s id tok).1.iocbs[id]? = some io' ∧ io'.st = io.st ∧ io'.resp = io.resp ∧ io'.err = io.err := by
+  have hk := appAbort_keeps cb1_keeps s id tok id
   have h1 : fin s.iocbs id = 1 := by simp [fin, h, ht]
-  have h2 := fin_le_one (appAbort s id tok).1.iocbs id
+  have h2 := fin_le_one (appAbort cb1 s id tok).1.iocbs id
   have := hk.once
   exact ⟨by omega, hk.frozen io h ht⟩
 
-/-- **queue_advances / queue_empty_forgotten** (the confirmation).  A
-    confirmation of the ack or error class from `addr`, whose queue object `q`
-    has the active IOCB `id`: the queue object is released (no active IOCB,
-    idle) and its `_trigger` is deferred; if nothing was waiting the queue is
-    forgotten (`del queue_by_address[addr]`).
-    `hfirst`: `q` is the object its serial names (serials are unique). -/
-theorem queue_released {s : St} {addr : Addr} {q : Q} {id : Nat} (kind : Conf) (tok : Nat)
-    (hq : lookupQ s.queues addr = some q) (ha : q.active = some id) (hk : kind ≠ .other)
-    (hfirst : findQ s.queues q.qid = some q) :
-    let s' := (Iocb.step s (.confirm addr kind tok)).1
+/-- **queue_never_stuck.**  Over ANY sequence of operations — request_io,
+    application aborts, confirmations of any class from any address, deferred
+    calls, and operations issued from INSIDE completion callbacks (re-entrant
+    request_io to the same or another destination, aborts of other IOCBs) —
+    an idle queue object with IOCBs waiting always has its `_trigger` pending
+    in the deferred list; queue objects have pairwise different serials. -/
+theorem queue_never_stuck (es : List Ev) :
+    let s := (Iocb.run St.init es).1
+    (∀ e ∈ s.queues, e.2.busy = false → e.2.queue ≠ [] → e.2.qid ∈ s.deferred) ∧
+    (qids s.queues).Nodup := by
+  have h := run_good es init_good
+  refine ⟨?_, h.ub.nodup⟩
+  intro e he hb hne
+  rcases h.d e he hb hne with h1 | h1
+  · exact h1
+  · cases h1
+
+/-- the invariant behind it, from any state that satisfies it -/
+theorem invariant_run (es : List Ev) {s : St} (h : Good none s) : Good none (Iocb.run s es).1 :=
+  run_good es h
+
+/-- **queue_released / queue_empty_forgotten** (the confirmation).  An
+    ack-class confirmation from `addr`, whose queue object `q` has the active
+    IOCB `id`, in any state satisfying the invariant, WHATEVER the completion
+    callback does re-entrantly: afterwards the `_trigger` of `q` is deferred,
+    the object is idle without active IOCB, and `addr` still maps to it only if
+    IOCBs are waiting in it — otherwise it is forgotten
+    (`del queue_by_address[addr]`). -/
+theorem queue_released {s : St} (hgood : Good none s) {addr : Addr} {q : Q} {id : Nat} (tok : Nat)
+    (hq : lookupQ s.queues addr = some q) (ha : q.active = some id) :
+    let s' := (Iocb.step s (.confirm addr .ack tok)).1
     q.qid ∈ s'.deferred ∧
-    (q.queue = [] → lookupQ s'.queues addr = none) ∧
-    (∀ q', findQ s'.queues q.qid = some q' → q'.active = none ∧ q'.busy = false) :=
-  appComplete_released kind (some tok) hq ha hk hfirst
+    (∀ q', findQ s'.queues q.qid = some q' → q'.active = none ∧ q'.busy = false) ∧
+    (∀ q'', lookupQ s'.queues addr = some q'' → q''.qid = q.qid → q''.queue ≠ []) :=
+  appComplete_released cb1_good hgood (some tok) hq ha
 
 /-- **queue_advances** (the deferred trigger).  The queue object is idle and
     the PENDING IOCB `id` is at the head of its waiting list: running the
@@ -1020,7 +1052,7 @@ theorem queue_advances {s : St} {qid : Nat} {q : Q} {p id : Nat} {rest : List (N
     findQ r.1.queues qid = some { q with busy := true, active := some id, queue := rest } ∧
     r.1.iocbs[id]? = some { io with inq := none, st := .active } := by
   simp only [Iocb.step, hd]
-  exact trigger_launches (s := { s with deferred := dl }) hq hb hqueue hio hst hf hu
+  exact trigger_launches cb1 (s := { s with deferred := dl }) hq hb hqueue hio hst hf hu
 
 /-! ### non-vacuity -/
 
@@ -1047,11 +1079,33 @@ example :
 example :
     let s4 := (Iocb.run St.init (exIo.take 4)).1
     let s5 := (Iocb.run St.init (exIo.take 5)).1
-    (∃ q, lookupQ s4.queues 7 = some q ∧ q.active = some 0 ∧ findQ s4.queues q.qid = some q ∧ q.queue ≠ []) ∧
+    (∃ q, lookupQ s4.queues 7 = some q ∧ q.active = some 0 ∧ q.queue ≠ []) ∧
     (∃ q dl io, s5.deferred = 0 :: dl ∧ findQ s5.queues 0 = some q ∧ q.busy = false ∧
        q.queue = (0, 1) :: [(0, 2)] ∧ s5.iocbs[1]? = some io ∧ io.st = .pending ∧
        io.fails = false ∧ io.unconf = false) := by
-  refine ⟨⟨_, rfl, rfl, rfl, by decide⟩, ⟨_, _, _, rfl, rfl, rfl, rfl, rfl, rfl, rfl, rfl⟩⟩
+  refine ⟨⟨_, rfl, rfl, by decide⟩, ⟨_, _, _, rfl, rfl, rfl, rfl, rfl, rfl, rfl, rfl⟩⟩
+
+/-- RE-ENTRANCY: the completion callback of IOCB #0 (ack from 7) submits a
+    follow-up request to the SAME destination and one to another, and aborts the
+    queued IOCB #1.  At that point the queue of 7 is still busy with #0: the
+    follow-up #2 is queued (not sent), #1 leaves the queue with its own callback,
+    #3 goes out to 8 at once; afterwards the queue of 7 is released and KEPT
+    (the follow-up waits in it), its trigger sends #2.  One callback each. -/
+def exReentrant : List Ev :=
+  [.submit 7 0 false false, .submit 7 0 false false,
+   .arm [.submit 7 0 false false, .submit 8 0 false false, .abort 1 55],
+   .confirm 7 .ack 100, .runDeferred, .confirm 7 .ack 101, .confirm 8 .err 102, .runDeferred]
+
+example :
+    let r4 := Iocb.run St.init (exReentrant.take 4)
+    let r := Iocb.run St.init exReentrant
+    r4.2 = [.sent 0, .callback 0 .completed (some 100) none, .sent 3, .callback 1 .aborted none (some 55)] ∧
+    r4.1.queues.map (fun e => (e.1, e.2.busy, e.2.active, e.2.queue)) =
+      [(7, false, none, [(0, 2)]), (8, true, some 3, [])] ∧
+    r4.1.deferred = [0] ∧ r4.1.script = [] ∧
+    r.2 = r4.2 ++ [.sent 2, .callback 2 .completed (some 101) none, .callback 3 .aborted none (some 102)] ∧
+    r.1.queues = [] ∧ nCb 0 r.2 = 1 ∧ nCb 1 r.2 = 1 ∧ nCb 2 r.2 = 1 ∧ nCb 3 r.2 = 1 := by
+  decide +kernel
 
 /-- the known, NOT claimed behaviour (DESIGN §7 C11 "Noted"): `_app_complete`
     matches the active IOCB by address only — after the APPLICATION aborted the
